@@ -718,17 +718,25 @@ class Parser:
         is_arrow = False
         try:
             self._advance()  # (
-            # Skip to matching )
-            paren_depth = 1
-            while paren_depth > 0 and not self._is_at_end():
-                if self._check(TokenType.LPAREN):
-                    paren_depth += 1
-                elif self._check(TokenType.RPAREN):
-                    paren_depth -= 1
+            # A parameter list is `)` or identifiers separated by commas and
+            # then `)`.  Anything else is a parenthesised expression; its
+            # tokens are not skipped over here, because `/` cannot be told
+            # from the start of a regular expression without parsing (a quote
+            # inside a regex literal would pair up with a later one).
+            plausible = True
+            if not self._check(TokenType.RPAREN):
+                while True:
+                    if not self._check(TokenType.IDENTIFIER):
+                        plausible = False
+                        break
+                    self._advance()
+                    if not self._check(TokenType.COMMA):
+                        break
+                    self._advance()
+            if plausible and self._check(TokenType.RPAREN):
                 self._advance()
-
-            # Check for =>
-            is_arrow = self._check(TokenType.ARROW)
+                # Check for =>
+                is_arrow = self._check(TokenType.ARROW)
         except Exception:
             pass
 
